@@ -570,9 +570,73 @@ func (e *Engine) index() {
 				if obj, ok := e.info.Defs[fd.Name].(*types.Func); ok {
 					e.fobjs[obj] = k
 				}
+				e.indexClosures(k, fd)
 			}
 		}
 	}
+}
+
+// indexClosures makes the function literals that a function builds and hands
+// out (assigned to a local or returned, not passed to an iterator) available as
+// functions of their own, named <outer>_closure<n>: the parameters of the outer
+// function (which the literal may capture) come first, then the literal's own.
+// Literals that capture locals of the outer function are not supported as units.
+func (e *Engine) indexClosures(outerKey string, outer *ast.FuncDecl) {
+	n := 0
+	var visit func(node ast.Node, depth int)
+	visit = func(node ast.Node, depth int) {
+		ast.Inspect(node, func(x ast.Node) bool {
+			switch s := x.(type) {
+			case *ast.CallExpr:
+				// literals passed as arguments (iterators, sort.Slice, ...) are part of the caller
+				for _, a := range s.Args {
+					if _, isLit := a.(*ast.FuncLit); isLit {
+						return false
+					}
+				}
+			case *ast.FuncLit:
+				if depth > 0 {
+					return false
+				}
+				n++
+				sigT, ok := e.info.TypeOf(s).(*types.Signature)
+				if !ok {
+					return false
+				}
+				osig, ok := e.info.Defs[outer.Name].(*types.Func)
+				if !ok {
+					return false
+				}
+				os := osig.Type().(*types.Signature)
+				var params []*types.Var
+				plist := &ast.FieldList{}
+				if outer.Type.Params != nil {
+					plist.List = append(plist.List, outer.Type.Params.List...)
+				}
+				for i := 0; i < os.Params().Len(); i++ {
+					params = append(params, os.Params().At(i))
+				}
+				if s.Type.Params != nil {
+					plist.List = append(plist.List, s.Type.Params.List...)
+				}
+				for i := 0; i < sigT.Params().Len(); i++ {
+					params = append(params, sigT.Params().At(i))
+				}
+				name := fmt.Sprintf("%s_closure%d", outer.Name.Name, n)
+				id := &ast.Ident{NamePos: s.Pos(), Name: name}
+				decl := &ast.FuncDecl{Recv: outer.Recv, Name: id, Type: &ast.FuncType{Func: s.Type.Func, Params: plist, Results: s.Type.Results}, Body: s.Body}
+				nsig := types.NewSignatureType(os.Recv(), nil, nil, types.NewTuple(params...), sigT.Results(), false)
+				obj := types.NewFunc(s.Pos(), e.pkg.Types, name, nsig)
+				e.info.Defs[id] = obj
+				k := funcKey(decl)
+				e.funcs[k] = decl
+				e.fobjs[obj] = k
+				return false
+			}
+			return true
+		})
+	}
+	visit(outer.Body, 0)
 }
 
 func (e *Engine) funcKeys() []string {
